@@ -146,4 +146,6 @@ type Spec struct {
 	Serial   bool // engine needs exclusive process (child processes etc.)
 	Workers  int  // 0 = default
 	MaxRSSMB int
+	// SelfCheckRuns overrides how many runs are repeated for the determinism self-check
+	SelfCheckRuns int
 }
